@@ -158,12 +158,16 @@ type Config struct {
 	// Tier2Hook, when set, may fail a job before it runs (fault injection).
 	Tier2Hook func(unit stage.Unit, attempt int) error
 	Timeout   time.Duration // per request (default 20 s)
+	// MaxWindows: a request that keeps making progress is given that many windows of Timeout (default 15)
+	MaxWindows int
 	// Remote, when set, replaces the harness' workers by the real RemoteWorker over a fake gRPC transport.
 	Remote *Remote
 	// AfterJob is called when a segment job has finished successfully, before the scheduler hears of it.
 	AfterJob func(unit stage.Unit)
 	// LateReads, when set, holds the squasher's racing reads of full-store snapshots (owned scheduler only)
 	LateReads *LateReads
+	// WriteFaults, when set, makes the first write of some cache files fail transiently (tier1 and tier2)
+	WriteFaults *WriteFaults
 	// ticks counts signs of progress (a block handed to a pipeline, a job started or finished, a response): the
 	// watchdog tells a slow request from one that is stuck
 	ticks *int64
@@ -534,6 +538,11 @@ func Run(mods *pbsubstreams.Modules, req Request, cfg Config) *Result {
 	if err != nil {
 		return &Result{Err: fmt.Errorf("harness: %w", err)}
 	}
+	if cfg.WriteFaults != nil {
+		base = cfg.WriteFaults.Wrap(base)
+		service.VerifSetStateStoreWrapper(cfg.WriteFaults.Wrap)
+		defer service.VerifSetStateStoreWrapper(nil)
+	}
 	ws := &workers{cfg: &cfg}
 	nextWorker := 0
 	rc := config.RuntimeConfig{
@@ -583,13 +592,17 @@ func Run(mods *pbsubstreams.Modules, req Request, cfg Config) *Result {
 	// merely slow (loaded machine) keeps ticking and is given up to 15 windows.
 	finished := false
 	last := atomic.LoadInt64(cfg.ticks)
-	for window := 0; window < 15 && !finished; window++ {
+	maxWindows := cfg.MaxWindows
+	if maxWindows <= 0 {
+		maxWindows = 15
+	}
+	for window := 0; window < maxWindows && !finished; window++ {
 		select {
 		case res.Err = <-done:
 			finished = true
 		case <-time.After(limit):
 			now := atomic.LoadInt64(cfg.ticks)
-			if now != last && window < 14 {
+			if now != last && window < maxWindows-1 {
 				last = now
 				continue
 			}
